@@ -371,6 +371,49 @@ pub fn run(ctx: &mut Ctx) {
                 Err(p) => ctx.violation(&format!("decorated-objects/panic/{}", p.signature()), &format!("{:?}", p), J::s(pol.clone())),
             }
         }
+        // share leaves re-tagged with the LEGACY share tag #6.309 (SSKRShare reads both): the complete set still joins;
+        // and genuine shares of a secret that is not a 32-byte content key never make join panic
+        {
+            ctx.eval();
+            ctx.count("joins_with_legacy_tagged_shares");
+            let legacy: Vec<Envelope> = shares
+                .iter()
+                .flatten()
+                .enumerate()
+                .map(|(i, s)| {
+                    let a = s.assertions_with_predicate(known_values::SSKR_SHARE)[0].clone();
+                    let obj = a.as_object().unwrap();
+                    match obj.try_leaf().ok().and_then(|c| c.try_into_tagged_value().ok()) {
+                        // (every other share keeps the current tag)
+                        Some((_, inner)) if i % 2 == 0 => s.remove_assertion(a).add_assertion(known_values::SSKR_SHARE, dcbor::CBOR::to_tagged_value(309u64, inner)),
+                        _ => s.clone(),
+                    }
+                })
+                .collect();
+            // does the component type still read the legacy tag at all? (it does in bc-components 0.19)
+            let reads_legacy = legacy.iter().any(|s| s.assertions_with_predicate(known_values::SSKR_SHARE)[0].as_object().unwrap().extract_subject::<SSKRShare>().is_ok());
+            if reads_legacy {
+                match trap::guard(|| Envelope::sskr_join(&legacy.iter().collect::<Vec<&Envelope>>())) {
+                    Ok(Ok(x)) if x.is_identical_to(&wrapped) => {}
+                    Ok(Ok(_)) => ctx.violation("legacy-tag/wrong-envelope", "join returned another envelope", J::s(pol.clone())),
+                    Ok(Err(err)) => ctx.violation("legacy-tag/quorum-rejected", &format!("policy {}: all shares present, half of them under the legacy tag #6.309 (which SSKRShare reads), but join failed: {}", pol, err), J::s(pol.clone())),
+                    Err(p) => ctx.violation(&format!("legacy-tag/panic/{}", p.signature()), &format!("{:?}", p), J::s(pol.clone())),
+                }
+            }
+            let n = *rng.pick(&[16usize, 18, 24, 30]);
+            if let Ok(secret) = bc_components::SSKRSecret::new(rng.bytes(n)) {
+                let one = SSKRSpec::new(1, vec![SSKRGroupSpec::new(1, 1).unwrap()]).unwrap();
+                if let Ok(sh) = bc_components::sskr_generate(&one, &secret) {
+                    let carrier = enc.add_assertion(known_values::SSKR_SHARE, sh[0][0].clone());
+                    ctx.count("joins_with_short_secret_shares");
+                    match trap::guard(|| Envelope::sskr_join(&[&carrier])) {
+                        Ok(Ok(x)) => ctx.violation("short-secret/accepted", "join succeeded with shares of a secret that is not the content key", jhex(&x)),
+                        Ok(Err(_)) => {}
+                        Err(p) => ctx.violation(&format!("short-secret/panic/{}", p.signature()), &format!("{:?}", p), jhex(&carrier)),
+                    }
+                }
+            }
+        }
         // a forged FIRST envelope: a bare encrypted element made with the right content key that declares the
         // original's digest but holds something else; the genuine shares follow. Never another envelope.
         {
